@@ -4,7 +4,7 @@
 Require Extraction.
 Require Import ExtrOcamlBasic.
 From FP Require Gen.Facts.
-From FP Require Import Model.Base Model.ItsWords Model.ItsFsm Model.Rdh Model.RdhChecks Model.Payload Model.Alpide Model.CdpRunning Model.Scanner Model.Writer Model.Collector Model.System Model.Link Model.StatsCmp Model.Views Model.Protocol Model.ProtoTrace Spec.Grammar Spec.GrammarIts Spec.GrammarItsCheck Spec.GrammarItsCdw Spec.GrammarItsCdwCheck Spec.GrammarStaveCheck Spec.GrammarStaveCdwCheck Spec.WordLayout Spec.Diagram Spec.DiagramAbs Spec.RdhRules.
+From FP Require Import Model.Base Model.ItsWords Model.ItsFsm Model.Rdh Model.RdhChecks Model.Payload Model.Alpide Model.CdpRunning Model.Scanner Model.Writer Model.Collector Model.System Model.SystemView Model.Link Model.StatsCmp Model.Views Model.Protocol Model.ProtoTrace Spec.Grammar Spec.GrammarIts Spec.GrammarItsCheck Spec.GrammarItsCdw Spec.GrammarItsCdwCheck Spec.GrammarStaveCheck Spec.GrammarStaveCdwCheck Spec.WordLayout Spec.Diagram Spec.DiagramAbs Spec.RdhRules.
 Extraction Language OCaml.
 Set Extraction KeepSingleton.
 Extraction "model.ml"
@@ -14,7 +14,7 @@ Extraction "model.ml"
   Spec.WordLayout.data_word_verdict Spec.WordLayout.valid_data_id
   Model.ItsFsm.advance Model.ItsFsm.fstate_id Model.ItsFsm.fres_id Model.ItsFsm.all_fstates
   Model.ItsWords.sl_tdh_no_data Model.ItsWords.sl_tdt_packet_done
-  Model.Rdh.decode_rdh Model.Rdh.encode_rdh Model.Link.run_validator Model.Link.run_dispatch Model.Rdh.rdh_cru_id Model.Rdh.rdh_dw Model.Rdh.rdh_bc Model.Rdh.rdh1_reserved0 Model.Rdh.rdh_data_format Model.Rdh.rdh_payload_size Model.Scanner.Build_cdp Model.Scanner.scan Model.Scanner.scan_impl Model.Scanner.Build_scfg Model.Writer.written Model.Writer.write_all Model.System.main_stream Model.System.analysis_stream Model.System.stats_arrival Model.System.run_check Gen.Facts.fatal_sets_any_errors_flag Model.Collector.collect_all Model.Collector.finalize Model.Collector.displayed Model.Collector.exit_code Model.Collector.custom_errors Model.Collector.add_custom Model.Collector.Build_dcfg Gen.Facts.error_sort_when_muted Gen.Facts.error_sort_is_stable Spec.Grammar.render_link Spec.Grammar.wf_link_rdh Spec.GrammarItsCheck.link_witness Spec.GrammarItsCdwCheck.link_witness_cdw Spec.GrammarStaveCheck.stave_witness Spec.GrammarStaveCdwCheck.stave_witness_cdw Model.Views.view_rdh Model.Views.view_frames Model.StatsCmp.sc_validate Model.StatsCmp.flag_after_compare Model.StatsCmp.written_file Gen.Facts.stats_file_replaced_on_write
+  Model.Rdh.decode_rdh Model.Rdh.encode_rdh Model.Link.run_validator Model.Link.run_dispatch Model.Rdh.rdh_cru_id Model.Rdh.rdh_dw Model.Rdh.rdh_bc Model.Rdh.rdh1_reserved0 Model.Rdh.rdh_data_format Model.Rdh.rdh_payload_size Model.Scanner.Build_cdp Model.Scanner.scan Model.Scanner.scan_impl Model.Scanner.Build_scfg Model.Writer.written Model.Writer.write_all Model.System.main_stream Model.System.analysis_stream Model.System.stats_arrival Model.System.run_check Model.SystemView.run_reportless Gen.Facts.fatal_sets_any_errors_flag Model.Collector.collect_all Model.Collector.finalize Model.Collector.displayed Model.Collector.exit_code Model.Collector.custom_errors Model.Collector.add_custom Model.Collector.Build_dcfg Gen.Facts.error_sort_when_muted Gen.Facts.error_sort_is_stable Spec.Grammar.render_link Spec.Grammar.wf_link_rdh Spec.GrammarItsCheck.link_witness Spec.GrammarItsCdwCheck.link_witness_cdw Spec.GrammarStaveCheck.stave_witness Spec.GrammarStaveCdwCheck.stave_witness_cdw Model.Views.view_rdh Model.Views.view_frames Model.StatsCmp.sc_validate Model.StatsCmp.flag_after_compare Model.StatsCmp.written_file Gen.Facts.stats_file_replaced_on_write
   Model.CdpRunning.Build_vcfg Model.Alpide.rflags_list Model.Payload.preprocess
   Spec.RdhRules.rdh_sane Spec.RdhRules.running_violation Spec.RdhRules.h_header_id
   Model.ProtoTrace.replay_thread Model.ProtoTrace.cur_pfacts Model.Protocol.Build_cfg Model.Protocol.enabled Model.Protocol.greedy Model.Protocol.run Model.Protocol.init Model.Protocol.final Model.Protocol.mu
